@@ -118,3 +118,25 @@ def interface_contracts():
 
 def contracts():
     return interface_contracts()
+
+
+def call_sites(facts, target, dotted):
+    """the ast.Call nodes `a.b(...)` / `f(...)` named `dotted` inside the function `target` of the tree under test (call-site scans: the arguments a
+    function hands to an external call -- open, csv.reader, csv.writer -- are outside what the executor models; their SHAPE is checked on the real AST)"""
+    import ast
+    u = facts.unit(target)
+    out = []
+    if u is None:
+        return None
+    for n in ast.walk(u.node):
+        if isinstance(n, ast.Call):
+            f = n.func
+            name = f"{f.value.id}.{f.attr}" if isinstance(f, ast.Attribute) and isinstance(f.value, ast.Name) else (f.id if isinstance(f, ast.Name) else None)
+            if name == dotted:
+                out.append(n)
+    return out
+
+
+def kw_source(call):
+    import ast
+    return {k.arg: ast.unparse(k.value) for k in call.keywords if k.arg}
